@@ -287,6 +287,34 @@ def rule_cls_args_signature(db: ProgramDB) -> List[Instance]:
                         f"`{unparse(s_)[:90]}`: the parameter names of the class's own __init__" if ok else
                         f"`{unparse(s_)[:90]}` is not the parameter list of `{p0}.__init__`: positional field values are bound "
                         f"to the wrong fields whenever that order differs from __init__'s", line=s_.lineno))
+    # the table is per CLASS: every access is keyed by the class object itself, not by a name of it (two classes can have one name:
+    # the same class name in two modules, a class statement executed again with its fields reordered)
+    n_acc = 0
+    for f in db.all_functions():
+        if f.module != "predicate":
+            continue
+        for x in own_nodes(f.node):
+            key = None
+            if isinstance(x, ast.Subscript) and isinstance(x.value, ast.Name) and x.value.id == "cls_args":
+                key = x.slice
+            elif isinstance(x, ast.Compare) and len(x.ops) == 1 and isinstance(x.ops[0], (ast.In, ast.NotIn)) and isinstance(x.comparators[0], ast.Name) \
+                    and x.comparators[0].id == "cls_args":
+                key = x.left
+            elif isinstance(x, ast.Call) and isinstance(x.func, ast.Attribute) and isinstance(x.func.value, ast.Name) and x.func.value.id == "cls_args" \
+                    and x.func.attr in ("get", "setdefault", "pop") and x.args:
+                key = x.args[0]
+            if key is None:
+                continue
+            n_acc += 1
+            by_name = any(isinstance(y, ast.Attribute) and y.attr in ("__name__", "__qualname__", "__module__") for y in ast.walk(key)) or \
+                any(isinstance(y, ast.Call) and dotted(y.func) in ("str", "repr") for y in ast.walk(key))
+            out.append(inst("CLS-ARGS-SIGNATURE", VIOLATION if by_name else HOLDS, f, f"{f.short}[cls_args keyed by {unparse(key)[:30]}]",
+                            "keyed by the class object" if not by_name else
+                            f"`{unparse(x)[:60]}` keys the table of positional field names by a NAME of the class: two @symbol classes with the same name share one entry, and "
+                            f"positional values of the second are bound to the fields the first has at those positions (Crate(From(d), 'bob', 'apples') with the two swapped)",
+                            line=x.lineno))
+    if n_acc < 3:
+        raise AnalysisError(f"only {n_acc} accesses of the table of positional field names found")
     return out
 
 
